@@ -266,7 +266,8 @@ CLAIMS["C18"] = dict(
     technique="Lean 4 index arithmetic (reshape 'F') + optimiser contract as explicit hypothesis + wrapped-minimize correspondence + recomputation oracle")
 CLAIMS["C16"] = dict(
     category="proof",
-    text="SERIAL runs only (parallel=False). Proved in Lean about an executable model (Pygom/Seed.lean) in which every stochastic entry point - "
+    text="PARTIAL: that DIFFERENT seeds change the outputs is a statement about numpy's generator and is observed at run time only (see note); "
+         "reproducibility and the mean are proved. SERIAL runs only (parallel=False). Proved in Lean about an executable model (Pygom/Seed.lean) in which every stochastic entry point - "
          "solve_stochast (n sequential _jump calls, each first redrawing the stochastic parameters if any, then the while-loop of C04 with "
          "first-reaction / tau-leap / retry steps) and simulate_param / solve_determ with stochastic parameters (one redraw + integration before the loop, "
          "n in the loop, Y = entrywise mean of the returned list) - is a function World -> Output x World of ONE generator state and the model's "
